@@ -284,7 +284,7 @@ impl PrinterLogMessage {
                 assert((v0 + b0 + parts_bytes(linep.lineparts@.take(k))).len() == v0.len() + b0.len() + parts_bytes(linep.lineparts@.take(k)).len());
                 assert(parts_bytes(linep.lineparts@.take(k + 1)).len() == parts_bytes(linep.lineparts@.take(k)).len() + slice@.len());
             }
-//@before "PrinterLogMessageResult::Ok((printed, flushed))"
+//@before_tail
         proof { assert(linep.lineparts@.take(linep.lineparts@.len() as int) =~= linep.lineparts@); }
 //@end
 
@@ -345,7 +345,7 @@ impl PrinterLogMessage {
             assert(syslinep.lines@.take(syslinep.lines@.len() as int) =~= syslinep.lines@);
             assert((stdout_lock.view() + self.buffer@).len() == stdout_lock.view().len() + self.buffer@.len());
         }
-//@before "PrinterLogMessageResult::Ok((printed, flushed))"
+//@before_tail
         // C13 / C02: exactly the payload was written -- per line: file-name field, datetime field, line bytes -- nothing else
         assert(stdout_lock.view() == lines_payload(self.sys_prefix(syslinep, false, false), syslinep.lines@) && printed == stdout_lock.view().len() && self.buffer@.len() == 0);
 //@mutate "printed += p;" "printed += 0;"
@@ -403,7 +403,7 @@ impl PrinterLogMessage {
             assert(syslinep.lines@.take(syslinep.lines@.len() as int) =~= syslinep.lines@);
             assert((stdout_lock.view() + self.buffer@).len() == stdout_lock.view().len() + self.buffer@.len());
         }
-//@before "PrinterLogMessageResult::Ok((printed, flushed))"
+//@before_tail
         // C13 / C02: exactly the payload was written -- per line: file-name field, datetime field, line bytes -- nothing else
         assert(stdout_lock.view() == lines_payload(self.sys_prefix(syslinep, false, true), syslinep.lines@) && printed == stdout_lock.view().len() && self.buffer@.len() == 0);
 //@end
@@ -460,7 +460,7 @@ impl PrinterLogMessage {
             assert(syslinep.lines@.take(syslinep.lines@.len() as int) =~= syslinep.lines@);
             assert((stdout_lock.view() + self.buffer@).len() == stdout_lock.view().len() + self.buffer@.len());
         }
-//@before "PrinterLogMessageResult::Ok((printed, flushed))"
+//@before_tail
         // C13 / C02: exactly the payload was written -- per line: file-name field, datetime field, line bytes -- nothing else
         assert(stdout_lock.view() == lines_payload(self.sys_prefix(syslinep, true, false), syslinep.lines@) && printed == stdout_lock.view().len() && self.buffer@.len() == 0);
 //@end
@@ -524,7 +524,7 @@ impl PrinterLogMessage {
             assert(syslinep.lines@.take(syslinep.lines@.len() as int) =~= syslinep.lines@);
             assert((stdout_lock.view() + self.buffer@).len() == stdout_lock.view().len() + self.buffer@.len());
         }
-//@before "PrinterLogMessageResult::Ok((printed, flushed))"
+//@before_tail
         // C13 / C02: exactly the payload was written -- per line: file-name field, datetime field, line bytes -- nothing else
         assert(stdout_lock.view() == lines_payload(self.sys_prefix(syslinep, true, true), syslinep.lines@) && printed == stdout_lock.view().len() && self.buffer@.len() == 0);
 //@mutate "self.prepend_file.as_ref().unwrap().as_bytes(), &mut printed" "dtb, &mut printed"
@@ -549,7 +549,7 @@ impl PrinterLogMessage {
         r is Ok ==> final(self).buffer@.len() == 0,
         // C19: the count returned is the number of payload bytes written
         r is Ok ==> r->Ok_0.0 as int == old(self).fx_payload(fixedstruct, old(buffer)@.len() as int, false, false).len(),
-//@before "PrinterLogMessageResult::Ok((printed, flushed))"
+//@before_tail
         // C13 / C02: exactly the payload was written, nothing else; every byte written was counted
         assert(stdout_lock.view() == self.fx_payload(fixedstruct, buffer@.len() as int, false, false) && printed == stdout_lock.view().len() && self.buffer@.len() == 0);
 //@end
@@ -564,7 +564,7 @@ impl PrinterLogMessage {
         final(self).same_config(old(self)),
         r is Ok ==> final(self).buffer@.len() == 0,
         r is Ok ==> r->Ok_0.0 as int == old(self).fx_payload(fixedstruct, old(buffer)@.len() as int, false, true).len(),
-//@before "PrinterLogMessageResult::Ok((printed, flushed))"
+//@before_tail
         assert(stdout_lock.view() == self.fx_payload(fixedstruct, buffer@.len() as int, false, true) && printed == stdout_lock.view().len() && self.buffer@.len() == 0);
 //@end
 
@@ -578,7 +578,7 @@ impl PrinterLogMessage {
         final(self).same_config(old(self)),
         r is Ok ==> final(self).buffer@.len() == 0,
         r is Ok ==> r->Ok_0.0 as int == old(self).fx_payload(fixedstruct, old(buffer)@.len() as int, true, false).len(),
-//@before "PrinterLogMessageResult::Ok((printed, flushed))"
+//@before_tail
         assert(stdout_lock.view() == self.fx_payload(fixedstruct, buffer@.len() as int, true, false) && printed == stdout_lock.view().len() && self.buffer@.len() == 0);
 //@end
 
@@ -593,7 +593,7 @@ impl PrinterLogMessage {
         final(self).same_config(old(self)),
         r is Ok ==> final(self).buffer@.len() == 0,
         r is Ok ==> r->Ok_0.0 as int == old(self).fx_payload(fixedstruct, old(buffer)@.len() as int, true, true).len(),
-//@before "PrinterLogMessageResult::Ok((printed, flushed))"
+//@before_tail
         // C13: the file-name field comes before the datetime field, as for every other kind of message
         assert(stdout_lock.view() == self.fx_payload(fixedstruct, buffer@.len() as int, true, true) && printed == stdout_lock.view().len() && self.buffer@.len() == 0);
 //@mutate "&mut self.buffer, prepend_file," "&mut self.buffer, dtb,"
